@@ -1076,7 +1076,7 @@ fn pass_pairs(ctx: &Ctx, rep: &mut Reporter, case_no: &mut u64) {
     let variants: &[Variant] = if thorough { &[Variant::Plain, Variant::Idx, Variant::Pk, Variant::IdxL] } else { &[Variant::Plain, Variant::Idx, Variant::Pk] };
     rep.bound("pairs.key_domain", json!("{NULL,1,2,3}, duplicates allowed; payload l.x=10+i, r.y=20+i (unique per row)"));
     rep.bound("pairs.tables_per_side", json!(tables.len()));
-    rep.bound("pairs.max_rows_per_table", json!(if thorough { 4 } else { 3 }));
+    rep.bound("pairs.max_rows_per_table", json!(if thorough { "4 (4-row tables: with every <= 2-row table; with 3-/4-row tables when both key sets lie in {NULL,1,2})" } else { "3" }));
     rep.bound("pairs.queries_per_pair", json!(specs.len()));
     rep.bound("pairs.variants", json!(variants.iter().map(|v| v.name()).collect::<Vec<_>>()));
     rep.bound("budgets", json!(["default", 65536, 4096, 256, 1, 0]));
@@ -1089,6 +1089,13 @@ fn pass_pairs(ctx: &Ctx, rep: &mut Reporter, case_no: &mut u64) {
             for r in &tables {
                 // the reversed order adds nothing for tables of < 2 rows; for 4-row tables only the sorted order is run
                 if rev && (l.len() < 2 && r.len() < 2 || l.len() > 3 || r.len() > 3) {
+                    continue;
+                }
+                // reduction of the 4-row pairs (thorough): a 4-row table meets every table of <= 2 rows; pairs of a 4-row
+                // table with a 3- or 4-row table are run when both key multisets lie in {NULL,1,2}
+                let big = |k: &Keys| k.len() == 4;
+                let in3 = |k: &Keys| k.iter().all(|x| *x != Some(3));
+                if (big(l) || big(r)) && !(l.len() <= 2 || r.len() <= 2 || (in3(l) && in3(r))) {
                     continue;
                 }
                 let i = *case_no;
@@ -1105,8 +1112,8 @@ fn pass_pairs(ctx: &Ctx, rep: &mut Reporter, case_no: &mut u64) {
                 let prep = prepare(&t, &specs, false);
                 let mut per_variant: Vec<(Variant, Vec<Option<Res>>)> = vec![];
                 for &v in variants {
-                    if !v.legal(&t) {
-                        continue;
+                    if !v.legal(&t) || (v == Variant::IdxL && (rev || l.len() > 3 || r.len() > 3)) {
+                        continue; // the index on l.k (no operator uses it for the join) is run on the sorted <= 3-row tables only
                     }
                     rep.begin_case(&case_json("pairs", &t, v, &specs[0], None, "model", "").to_string());
                     let first = run_db("pairs", ctx, rep, &t, v, &prep, &BUDGETS, false);
@@ -1533,6 +1540,11 @@ impl Check for C17 {
         );
         s.cap_quick_s = 90;
         s.cap_thorough_s = 1500;
+        // development aid on a loaded machine: VERIF_DEV_CAP=<seconds> lifts both soft deadlines
+        if let Some(c) = std::env::var("VERIF_DEV_CAP").ok().and_then(|c| c.parse().ok()) {
+            s.cap_quick_s = c;
+            s.cap_thorough_s = c;
+        }
         s.assumptions = &["reference model refmodel::sql::query (cross-checked against SQLite) defines the SQL answer", "EXPLAIN reports the operator that the query dispatch then uses"];
         vec![s]
     }
